@@ -10,7 +10,7 @@ PROP_ID = 'C06'
 RULE = ("(a) exhaustive: every key of the shipped stylesheet table × syntaxes css/scss/sass/less/sss/stylus × scopes none/@@global/@@section/@@property; "
         "(b) exhaustive: every dash-free keyword (top-level word or function name of an alternative, outside quoted strings, fields and function arguments) of "
         "every property snippet typed as `key:kw` and `key-kw` in lower/UPPER/Mixed case; (c) Hypothesis: user tables with 1–5 entries that override shipped keys "
-        "or add new all-letter keys, property and raw bodies. Oracle derived from the *table text*, not from the resolver: `prop[:alt|alt…]` ⇒ "
+        "or add new all-letter keys (lower case and camelCase), property and raw bodies. Oracle derived from the *table text*, not from the resolver: `prop[:alt|alt…]` ⇒ "
         "`prop<between><first alternative with fields reduced><after>` (compared with blanks removed), a tabstop marker present iff there is no value, several "
         "alternatives or explicit fields; raw body ⇒ the body with fields reduced, exactly; `key:kw` ⇒ value is kw or starts with `kw(`; @@section hides property "
         "lines and keeps raw bodies, @@property dually; a user entry wins under its key. Non-trivial: every case except raw snippets without fields; each case is "
@@ -204,13 +204,24 @@ def shard_table(ctx, shard, nshards):
 
 def user_strategy():
     shipped = sorted(TABLE)
-    letters = st.text('abcdefghijkmnopqrstuvwxyz', min_size=1, max_size=4).filter(lambda k: k != 'lg')
+    lower = st.text('abcdefghijkmnopqrstuvwxyz', min_size=1, max_size=4).filter(lambda k: k != 'lg')
+    # camelCase keys as well (`myGap`): they must not coincide, letter case ignored, with a shipped key (which of the two wins is not specified)
+    camel = st.builds(lambda a, b: a + b.capitalize(), st.text('abcdefghijkmnopqrstuvwxyz', min_size=1, max_size=3), st.text('abcdefghijkmnopqrstuvwxyz', min_size=1, max_size=4)).filter(
+        lambda k: k.lower() not in TABLE and k.lower() != 'lg')
+    letters = st.one_of(lower, lower, camel)
     word = st.text('abcdefghijklmnopqrstuvwxyz', min_size=2, max_size=7)
     prop_body = st.builds(lambda p, alts: p + (':' + '|'.join(alts) if alts else ''), st.builds(lambda a, b: a + '-' + b, word, word),
                           st.lists(st.one_of(word, st.builds(lambda w, n: '${1:%s} %s' % (w, n), word, word), st.builds(lambda w: "'%s x'" % w, word)), max_size=3))
     raw_body = st.builds(lambda a, b, c: '@%s ${1:%s} {\n\t${0}%s\n}' % (a, b, c), word, word, st.sampled_from(['', ' x', ';']))
     entry = st.tuples(st.one_of(st.sampled_from(shipped).filter(lambda k: k != 'lg'), letters), st.one_of(prop_body, prop_body, raw_body))
-    return st.builds(lambda es, s, pr: {'user': dict(es), 'syntax': s, 'probe': pr}, st.lists(entry, min_size=1, max_size=5), st.sampled_from(SYNTAXES),
+    def table(es):
+        seen, out = set(), {}
+        for k, v in es:
+            if k.lower() not in seen:
+                seen.add(k.lower())
+                out[k] = v
+        return out
+    return st.builds(lambda es, s, pr: {'user': table(es), 'syntax': s, 'probe': pr}, st.lists(entry, min_size=1, max_size=5), st.sampled_from(SYNTAXES),
                      st.lists(st.sampled_from(shipped), max_size=3))
 
 
